@@ -24,7 +24,7 @@ def run(rep):
     closures_fp(rep, mir, L)
     lowrank_guards(rep, mir, L)
     from ..driver import parts
-    parts(rep, [lambda: initial_matrix(rep, mir, L), lambda: inner_matrix(rep, mir, L), lambda: too_few_draws(rep, mir, L)])
+    parts(rep, [lambda: initial_matrix(rep, mir, L), lambda: inner_matrix(rep, mir, L), lambda: too_few_draws(rep, mir, L), lambda: other_mutators(rep, mir, L)])
 
 # ------------------------------------------------------------------------------------------------
 def exactness(rep, mir, L, n):
@@ -306,3 +306,45 @@ def too_few_draws(rep, mir, L):
     rep.cover('C08.6 adapt with < 3 samples has a path', len(outs) > 0)
     if bad: rep.violated('C08.6 diagonal adaptation with fewer than three samples', 'diag.too_few', 'DiagAdaptStrategy::adapt: %s' % (bad[0],), model={'problems': [str(b) for b in bad]})
     else: rep.holds('C08.6 DiagAdaptStrategy::adapt with fewer than three samples: returns false, transformation and id unchanged (%d paths)' % len(outs))
+
+
+def other_mutators(rep, mir, L):
+    """the remaining functions that change a transformation: DiagMassMatrix::update_diag_draw (draw-variance estimator) and
+    LowRankMassMatrix::update_from_grad (initial low-rank matrix) - consistent log-determinant, mean / factor as documented, id bumped"""
+    bad = []; n = 0
+    # update_diag_draw
+    A = RealAlg(); vm = VM(mir, A, inst={}); env = MathEnv(vm, 1, 'uf', L); install_misc(vm)
+    fn = mir.method('DiagMassMatrix', None, 'update_diag_draw'); m = Machine(); math = Ref(m.alloc(Opaque('math')))
+    def diag0(tag): return L.make('DiagMassMatrix', {'mean': Seq([A.fresh(tag + 'mean')]), 'inv_stds': Seq([A.fresh(tag + 'inv_std')]), 'stds': Seq([A.fresh(tag + 'std')]), 'logdet': A.fresh(tag + 'logdet'), 'store_mass_matrix': False, 'id': z3.Int(tag + 'id')})
+    mc = m.alloc(diag0('old_')); dm, dv, sc = A.fresh('draw_mean'), A.fresh('draw_var'), A.fresh('scale'); lo, hi = A.fresh('clamp_lo'), A.fresh('clamp_hi')
+    m.pc += [lo.v > 0, lo.v <= hi.v, dv.v > 0, sc.v > 0, z3.Int('old_id') > -2 ** 40, z3.Int('old_id') < 2 ** 40]; vm.unknown_is_feasible = True; vm.solver.set('timeout', 3000)
+    outs = list(vm.exec_fn(m, fn, [Ref(mc), math, Ref(m.alloc(Seq([dm]))), Ref(m.alloc(Seq([dv]))), sc, NONE(), Struct((lo, hi))])); n += len(outs); rep.absorb_vm(vm)
+    for (m2, k, v) in outs:
+        ax = _sqrt_axioms(A); sol = z3.Solver(); sol.set('timeout', 60000); sol.add(*m2.pc); sol.add(*ax)
+        if sol.check() == z3.unsat: continue
+        if k == 'panic': bad.append(('update_diag_draw panics', str(v)[:100])); continue
+        g = lambda f: L.get('DiagMassMatrix', m2.mem[mc], f); std, inv = g('stds').items[0].v, g('inv_stds').items[0].v
+        sol.add(z3.Or(g('id') != z3.Int('old_id') + 1, g('mean').items[0].v != dm.v, g('logdet').v != A.uf['ln'](inv), inv * std != 1, std <= 0))
+        if sol.check() != z3.unsat: bad.append(('update_diag_draw: id not bumped / mean is not the draw mean / logdet is not ln(inv_std) / scales inconsistent', str(sol.model())[:200]))
+    # update_from_grad
+    A = RealAlg(); vm = VM(mir, A, inst={}); env = MathEnv(vm, 1, 'uf', L); install_misc(vm)
+    fns = [f for n_, f in mir.fns.items() if n_.endswith('::update_from_grad') and 'transform::low_rank' in n_]
+    if len(fns) == 1:
+        fn = fns[0].parse(); m = Machine(); math = Ref(m.alloc(Opaque('math')))
+        diag = L.make('DiagMassMatrix', {'mean': Seq([A.fresh('dm')]), 'inv_stds': Seq([A.fresh('dis')]), 'stds': Seq([A.fresh('ds')]), 'logdet': A.fresh('dld'), 'store_mass_matrix': False, 'id': z3.Int('did')})
+        lr = L.make('LowRankMassMatrix', {'diag': diag, 'inner': SOME(Opaque('old factor')), 'settings': Opaque('settings'), 'logdet': A.fresh('ld'), 'id': z3.Int('lid')})
+        c = m.alloc(lr); x, g_ = A.fresh('x'), A.fresh('g'); fill = A.fresh('fill'); lo, hi = A.fresh('clamp_lo'), A.fresh('clamp_hi')
+        m.pc += [lo.v > 0, lo.v <= hi.v, fill.v > 0, g_.v != 0] + [z3.Int(t) > -2 ** 40 for t in ('did', 'lid')] + [z3.Int(t) < 2 ** 40 for t in ('did', 'lid')]; vm.unknown_is_feasible = True; vm.solver.set('timeout', 3000)
+        outs = list(vm.exec_fn(m, fn, [Ref(c), math, Ref(m.alloc(Seq([x]))), Ref(m.alloc(Seq([g_]))), fill, Struct((lo, hi))])); n += len(outs); rep.absorb_vm(vm)
+        for (m2, k, v) in outs:
+            sol = z3.Solver(); sol.set('timeout', 60000); sol.add(*m2.pc); sol.add(*_sqrt_axioms(A))
+            if sol.check() == z3.unsat: continue
+            if k == 'panic': bad.append(('update_from_grad panics', str(v)[:100])); continue
+            after = m2.mem[c]; gg = lambda f: L.get('LowRankMassMatrix', after, f)
+            if gg('inner').name != 'None': bad.append(('update_from_grad keeps the old low-rank factor',))
+            sol.add(z3.Or(gg('id') != z3.Int('lid') + 1, gg('logdet').v != L.get('DiagMassMatrix', gg('diag'), 'logdet').v, L.get('DiagMassMatrix', gg('diag'), 'id') != z3.Int('did') + 1))
+            if sol.check() != z3.unsat: bad.append(('update_from_grad: id not bumped or logdet is not the diagonal part', str(sol.model())[:200]))
+    else: rep.unknown('C08.7 LowRankMassMatrix::update_from_grad not found')
+    rep.paths += n; rep.cover('C08.7 both mutators executed', n >= 2)
+    if bad: rep.violated('C08.7 other transformation mutators', 'diag.mutators', 'transformation update: %s' % (bad[0],), model={'problems': [str(b)[:300] for b in bad[:5]]})
+    else: rep.holds('C08.7 update_diag_draw and LowRankMassMatrix::update_from_grad: id bumped, logdet consistent with the new scales, mean = draw mean resp. low-rank factor cleared (%d paths)' % n)
